@@ -98,7 +98,7 @@ CHECKS.update({
 })
 CHECKS["C17"] = dict(level="model_checking", engine="loom-debugger",
    technique="loom (DPOR with iterated preemption bound) over the real debugger source rebound to loom primitives; every explored schedule is a run of the real code checked against the reference entries of the parse (S_doc on the optimized rules); plus exhaustive command-line sessions of the real pest_debugger binary",
-   text="The real debugger/src/lib.rs is recompiled with its std::sync / std::thread imports bound to loom-backed shims (build.rs, no repository hook) and six controller scripts (run-to-end, breakpoint edits while stopped, re-run after the first event, immediate re-run with the precondition enforced exactly, re-run after the end, a surplus cont at the last stop followed by a re-run) are explored (with the S2 edit variants: delete, delete-all, delete-all-then-add, add-all, swap) for thirteen grammar/input/breakpoint scenarios (incl. breakpoints on built-ins, silent rules, implicit WHITESPACE, stack built-ins, an input beginning with a byte order mark, an input beginning with blanks) and channel capacities 1 and 2, at preemption bounds 0..4 (quick) and 0..6 plus unbounded with a time cap (thorough); scripts S1-S4 are additionally explored with one spurious return of thread::park (which std permits) at the first or second wait, at bounds 0..2. In every schedule the delivered events must equal the entries of the parse - taken from the reference model S_doc run on the optimized rules, with which the VM's own listener trace is compared sequentially - filtered by the breakpoint set and followed by Eof or the plain VM error text, nothing may arrive between a breakpoint and its cont, and every run() must return with all threads able to terminate (loom reports deadlocks). The command-line front end (debugger/src/main.rs) is driven as the real binary built from /repo: up to 9 session forms (options in three orders, typed commands in short and long verbs, mixtures, input given by `id`) x 13 scenarios, printed event stream compared with the same expectation.",
+   text="The real debugger/src/lib.rs is recompiled with its std::sync / std::thread imports bound to loom-backed shims (build.rs, no repository hook; the shim mutex carries a witness cell so that loom's partial-order reduction also orders try_lock against lock) and seven controller scripts (run-to-end, breakpoint edits while stopped, re-run after the first event, immediate re-run with the precondition enforced exactly, re-run after the end, a surplus cont at the last stop followed by a re-run, the controller listing and editing the breakpoint set while the parser runs) are explored (with the S2 edit variants: delete, delete-all, delete-all-then-add, add-all, swap) for thirteen grammar/input/breakpoint scenarios (incl. breakpoints on built-ins, silent rules, implicit WHITESPACE, stack built-ins, an input beginning with a byte order mark, an input beginning with blanks) and channel capacities 1 and 2, at preemption bounds 0..4 (quick) and 0..6 plus unbounded with a time cap (thorough); scripts S1-S4 are additionally explored with one spurious return of thread::park (which std permits) at the first or second wait, at bounds 0..2. In every schedule the delivered events must equal the entries of the parse - taken from the reference model S_doc run on the optimized rules, with which the VM's own listener trace is compared sequentially - filtered by the breakpoint set and followed by Eof or the plain VM error text, nothing may arrive between a breakpoint and its cont, and every run() must return with all threads able to terminate (loom reports deadlocks). The command-line front end (debugger/src/main.rs) is driven as the real binary built from /repo: up to 10 session forms (options in three orders, typed commands in short and long verbs, mixtures, input given by `id`, a session that follows a run whose parsing thread panicked) x 13 scenarios, printed event stream compared with the same expectation.",
    note="More than one spurious park wake-up per execution, rendezvous channels (capacity 0) and orderings weaker than loom's C11 model are not explored; the bounded channel is the harness' loom model of sync_channel.",
    design_ref="§3 C17")
 CHECKS["C02"] = dict(level="translation_validation", engine="compiled-corpus-differential",
